@@ -67,6 +67,9 @@ CHECKS = {
     "C27": C("c27", dict(checks=300, shards=4, timeout=900), dict(checks=4000, shards=16, timeout=6000),
              "property-based testing (rapid): round trip of generated element sequences through the PBF writer and reader, for 1-4 reader cores",
              "Trusted: the element model in harness/c27. Ways have at least one node. With several cores only per-goroutine order is defined (blocks are decoded concurrently)."),
+    "C29": C("c29", dict(checks=150, shards=4, timeout=900), dict(checks=3000, shards=16, timeout=6000),
+             "property-based testing (rapid): generated OSM data; oracle: an independent implementation of the stated mapping rules (reference model) compared through lookups and enumeration",
+             "Trusted: the rules as transcribed in harness/c29 (including the searchable key table) and s2 loop orientation. Data has no missing way nodes (dropping invalid ways is C37's subject)."),
     "C31": C("c31", dict(checks=4000, shards=2, timeout=300), dict(checks=40000, shards=16, timeout=3000),
              "property-based testing (rapid): round trips of generated feature IDs through every encoding, and order laws on generated triples with a differential against the compact index order",
              "Trusted: encoders/decoders of encoding/json, gopkg.in/yaml.v2 and protobuf. IDs in the postcode and ONS alias namespaces are restricted to values the packers produce (other values have no alias form). Namespaces exclude control characters."),
